@@ -1,0 +1,29 @@
+// Copyright ©2024 The Gonum Authors. All rights reserved.
+// Use of this source code is governed by a BSD-style
+// license that can be found in the LICENSE file.
+
+//go:build verif
+
+package optimize
+
+import "sync/atomic"
+
+var verifYieldHook atomic.Pointer[func(site string)]
+
+// VerifSetYield installs f to be called at the named points between the
+// critical sections of Minimize's goroutine protocol (nil removes it). It
+// exists only with the verif build tag and is used by the runtime monitors
+// in /verif to widen the set of interleavings that are observed.
+func VerifSetYield(f func(site string)) {
+	if f == nil {
+		verifYieldHook.Store(nil)
+		return
+	}
+	verifYieldHook.Store(&f)
+}
+
+func verifYield(site string) {
+	if f := verifYieldHook.Load(); f != nil {
+		(*f)(site)
+	}
+}
